@@ -69,6 +69,17 @@ fn run_route(lines: &[String], replies: &[String], route: usize, cap: usize) -> 
     })
 }
 
+/// What a warning is about, independent of its wording: the name it quotes and whether it
+/// speaks of an array, plus the line it is attributed to.
+fn wnorm(w: &[(String, Option<u64>)]) -> Vec<(String, bool, Option<u64>)> {
+    w.iter()
+        .map(|(m, l)| {
+            let name = m.split('\'').nth(1).unwrap_or("").to_string();
+            (name, m.to_lowercase().contains("array"), *l)
+        })
+        .collect()
+}
+
 fn collapse(v: &[u64]) -> Vec<u64> {
     let mut out: Vec<u64> = vec![];
     for x in v {
@@ -161,7 +172,7 @@ fn check_program(lines: &[String], replies: &[String], model: Option<&ProgramAst
                     if !mw.is_empty() {
                         acc.with_warnings += 1;
                     }
-                    if mw != obs[3].warnings {
+                    if wnorm(&mw) != wnorm(&obs[3].warnings) {
                         problem = Some(("warnings differ from the reference".into(), format!("warnings {:?}; reference {:?}", obs[3].warnings, mw), 3));
                     }
                 }
@@ -283,6 +294,80 @@ fn trace_under_break(lines: &[String], replies: &[String], name: &str, acc: &mut
         }
         (collapse(&s.recs.iter().filter_map(|r| if let Rec::Trace(l) = r { Some(*l) } else { None }).collect::<Vec<_>>()), hist)
     };
+    // tracing switched on only at the breakpoint (by the field, by the TRACE command): from
+    // there on the records are those of the run traced from its start
+    let late = |break_at: Option<usize>, how: u8| -> (Vec<Vec<u64>>, Vec<Ev>) {
+        let mut s = Sess::new();
+        s.it.enable_tracing = break_at.is_none();
+        let mut hist = vec![];
+        for l in lines {
+            let e = Ev::Line(l.clone());
+            let _ = s.apply(&e);
+            hist.push(e);
+        }
+        s.recs.clear();
+        s.it.randomize(1);
+        let mut rp = replies.iter();
+        let mut ev = Ev::Line("RUN".into());
+        let mut k = 0usize;
+        let mut per_call: Vec<Vec<u64>> = vec![];
+        loop {
+            s.recs.clear();
+            let r = s.apply(&ev);
+            hist.push(ev.clone());
+            per_call.push(s.recs.iter().filter_map(|r| if let Rec::Trace(l) = r { Some(*l) } else { None }).collect());
+            if r != CallResult::Ok || k > 300 {
+                break;
+            }
+            k += 1;
+            if Some(k) == break_at && s.state() != abasic_core::InterpreterState::Idle {
+                let _ = s.apply(&Ev::Break);
+                hist.push(Ev::Break);
+                if how == 0 {
+                    s.it.enable_tracing = true;
+                } else {
+                    let _ = s.apply(&Ev::Line("TRACE".into()));
+                    hist.push(Ev::Line("TRACE".into()));
+                }
+                ev = Ev::Line("CONT".into());
+                continue;
+            }
+            ev = match s.state() {
+                abasic_core::InterpreterState::Running => Ev::Cont,
+                abasic_core::InterpreterState::AwaitingInput => match rp.next() {
+                    Some(x) => Ev::Input(x.clone()),
+                    None => break,
+                },
+                _ => break,
+            };
+        }
+        (per_call, hist)
+    };
+    let (full, _) = late(None, 0);
+    for k in 1..=30usize {
+        for how in [0u8, 1] {
+            if k >= full.len() {
+                break;
+            }
+            acc.runs += 1;
+            let (got, hist) = late(Some(k), how);
+            // (immediate repeats collapsed, as the property reads traces: re-executing a pending
+            // INPUT after CONT names its line once more)
+            let want: Vec<u64> = collapse(&full[k..].iter().flatten().copied().collect::<Vec<_>>());
+            let have: Vec<u64> = collapse(&got.iter().flatten().copied().collect::<Vec<_>>());
+            if have != want {
+                acc.violating += 1;
+                if acc.viol.len() < 20 {
+                    acc.viol.push(Violation {
+                        signature: format!("trace switched on at a breakpoint differs from the run traced from its start [{}]", name),
+                        detail: format!("tracing switched on ({}) after a break at boundary {}: records {:?}; the run traced from its start gives {:?} from there on", if how == 0 { "field" } else { "TRACE command" }, k, have, want),
+                        case: case_history(&hist, false, how == 0),
+                    });
+                }
+                return;
+            }
+        }
+    }
     let (base, _) = run(None);
     for k in 1..=40 {
         acc.runs += 1;
@@ -426,7 +511,7 @@ pub fn run(thorough: bool) -> Report {
                 if got != want_trace {
                     acc.violating += 1;
                     acc.viol.push(Violation { signature: format!("trace does not name the lines execution passes through [{:?}, {}]", lines, how), detail: format!("{:?}: trace (collapsed) {:?}, expected {:?}", lines, got, want_trace), case: json!({"kind":"program","lines":lines,"replies":[],"seed":"1","warnings":true,"tracing":true}) });
-                } else if warns != ww {
+                } else if wnorm(&warns) != wnorm(&ww) {
                     acc.violating += 1;
                     acc.viol.push(Violation { signature: format!("warnings differ from the expected ones [{:?}, {}]", lines, how), detail: format!("{:?}: warnings {:?}, expected {:?}", lines, warns, ww), case: json!({"kind":"program","lines":lines,"replies":[],"seed":"1","warnings":true,"tracing":true}) });
                 }
